@@ -11,11 +11,13 @@ namespace T3
 open Fw
 
 /-- The firmware-valid domain of the property statement: `1 ≤ T` (a 32-bit tick count), every per-tick
-rate within `±(2^31−1)` and every per-tick acceleration within `±2^31`. -/
+rate within the signed 32-bit range `[−2^31, 2^31−1]` (asymmetric: `−2^31` is a valid rate) and every
+per-tick acceleration within `±2^31`. -/
 structure ValidT3 (rate accel jerk T : Int) : Prop where
   hT1 : 1 ≤ T
   hT : T ≤ 2 ^ 32
-  hrate : ∀ k : Nat, 1 ≤ k → (k : Int) ≤ T → |t3Rate rate accel jerk k| ≤ 2 ^ 31 - 1
+  hrate : ∀ k : Nat, 1 ≤ k → (k : Int) ≤ T →
+    -2 ^ 31 ≤ t3Rate rate accel jerk k ∧ t3Rate rate accel jerk k ≤ 2 ^ 31 - 1
   haccel : ∀ k : Nat, (k : Int) ≤ T → |t3Accel rate accel jerk k| ≤ 2 ^ 31
 
 /-- three-point (divided difference) identity for `p k = 2·r_k` -/
@@ -48,6 +50,8 @@ theorem envelope_of_valid {rate accel jerk T : Int} (hv : ValidT3 rate accel jer
     have hc := rate_closed rate accel jerk k.toNat
     rw [hkn] at hc
     rw [← hc, abs_mul]
+    have habs : |t3Rate rate accel jerk k.toNat| ≤ 2 ^ 31 := by
+      rw [abs_le]; constructor <;> linarith [h.1, h.2]
     norm_num
     linarith
   have hr : |rate| ≤ 2 ^ 40 := by
